@@ -70,7 +70,7 @@ def gen_case(ctx: Ctx, rng) -> dict:
         elif bad == "out_neg" and im:
             outputs = [fg.rand_state(rng, im, nph)]
             outputs[0][0] = -2
-    return {"prog": prog, "inputs": inputs, "outputs": outputs, "bad": bad}
+    return {"prog": prog, "inputs": inputs, "outputs": outputs, "bad": bad, "shared_sim": rng.random() < 0.5}
 
 
 def occ_json(s):
@@ -87,7 +87,17 @@ def run_case(ctx: Ctx, case: dict) -> list[str]:
         return probs  # fock_basis(0, n) does not terminate in the code; excluded (documented)
     ins, outs = case["inputs"], case["outputs"]
     try:
-        res = emulator.Simulator(c).simulate([to_state(s) for s in ins],
+        # half of the cases go through ONE long-lived Simulator whose circuit is reassigned, so that
+        # anything memoised per object across circuits shows up
+        if case.get("shared_sim"):
+            sim = getattr(ctx, "_shared_sim", None)
+            if sim is None:
+                sim = emulator.Simulator(c)
+                ctx._shared_sim = sim
+            sim.circuit = c
+        else:
+            sim = emulator.Simulator(c)
+        res = sim.simulate([to_state(s) for s in ins],
                                              None if outs is None else [to_state(s) for s in outs])
         impl = {"inputs": [s.s for s in res.inputs], "outputs": [s.s for s in res.outputs],
                 "array": np.array(res.array)}
